@@ -77,7 +77,7 @@ var profiles = map[string]Profile{
 		W: [8]int{4, 4, 4, 3, 6, 4, 1, 0}, MidReady: 5, Bursts: 15, EarlyStop: 45, ConfigSwarm: true, Terminal: 4, NewGame: 5},
 	"C13": {Prop: "C13", Checks: []string{"c13", "c05"}, Searches: [2]int{3, 7}, Stalls: false, MaxBaseNs: 10000, OptionSwarm: false,
 		W: [8]int{4, 4, 8, 5, 0, 0, 0, 3}, MidReady: 0, Bursts: 0, EarlyStop: 0, Terminal: 3, NewGame: 5},
-	"C14": {Prop: "C14", Checks: []string{"c12", "c05"}, Searches: [2]int{4, 9}, Stalls: true, MaxBaseNs: 30000, OptionSwarm: false,
+	"C14": {Prop: "C14", Checks: []string{"c12", "c05", "c14"}, Searches: [2]int{4, 9}, Stalls: true, MaxBaseNs: 30000, OptionSwarm: false,
 		W: [8]int{2, 2, 5, 5, 4, 5, 0, 0}, MidReady: 30, Bursts: 40, EarlyStop: 35, Terminal: 5, NewGame: 10},
 	"C07": {Prop: "C07", Checks: []string{"c05"}, Searches: [2]int{4, 8}, Stalls: false, MaxBaseNs: 8000, OptionSwarm: true,
 		W: [8]int{8, 4, 2, 0, 3, 0, 1, 0}, MidReady: 0, Bursts: 5, EarlyStop: 25, ConfigSwarm: true, Terminal: 10, NewGame: 5},
